@@ -192,7 +192,9 @@ ObsEnd == /\ (Is("ce") \/ Is("ve"))
 
 DropEv == /\ Is("drop")
           /\ Flag((IF E.valid /\ E.s \in led.live THEN {} ELSE {"C05"}) \cup
-                  (IF \E b \in led.busy : b[2] = E.s /\ E.s # 0 THEN {"C04"} ELSE {}))
+                  \* destroyed while a consumer is cloning / viewing it: C04 (unstable value) and C05 (dropped
+                  \* while still reachable) alike
+                  (IF \E b \in led.busy : b[2] = E.s /\ E.s # 0 THEN {"C04C05"} ELSE {}))
           /\ led' = [led EXCEPT !.live = @ \ {E.s}]
           /\ UNCHANGED <<q, pend>>
           /\ l' = l + 1
@@ -201,10 +203,16 @@ DropEv == /\ Is("drop")
 (* One blocked or spinning thread: acceptable only if the model offers it nothing *)
 StuckBad(x) ==
   CASE x.op = "none" -> {}
-    [] x.op = "brecv" -> IF IsRecv(q, x.h) /\ RecvRes(q, x.h) = "Empty" THEN {} ELSE {"C08"}
+    \* blocked although the end of the stream is due: this is both "never reports the end" (C07) and
+    \* "never wakes" (C08 / C14), hence the joint ids
+    [] x.op = "brecv" -> IF ~IsRecv(q, x.h) THEN {"C08"}
+                         ELSE IF RecvRes(q, x.h) = "Empty" THEN {}
+                         ELSE IF RecvRes(q, x.h) = "Disc" THEN {"C07C08"} ELSE {"C08"}
     [] x.op = "taskwait" ->
          IF x.api = "send" THEN (IF IsSend(q, x.h) /\ SendRes(q) = "Full" THEN {} ELSE {"C14"})
-         ELSE (IF IsRecv(q, x.h) /\ RecvRes(q, x.h) = "Empty" THEN {} ELSE {"C14"})
+         ELSE (IF ~IsRecv(q, x.h) THEN {"C14"}
+               ELSE IF RecvRes(q, x.h) = "Empty" THEN {}
+               ELSE IF RecvRes(q, x.h) = "Disc" THEN {"C07C14"} ELSE {"C14"})
     [] x.op = "retry_send" -> IF IsSend(q, x.h) /\ SendRes(q) = "Full" THEN {} ELSE {"C06"}
     [] x.op = "retry_recv" -> IF IsRecv(q, x.h) /\ RecvRes(q, x.h) = "Empty" THEN {} ELSE {"C06"}
     [] x.api \in {"poll", "start_send", "poll_complete"} -> {"C15"}
